@@ -65,9 +65,13 @@ func releaseKind(p *Prog, in ssa.Instruction) string {
 	return ""
 }
 
-func runC16(c *Ctx) {
+func runC16(c *Ctx) { runC16As(c, "C16") }
+
+// runC16As evaluates the drain-and-swap rules, reporting them under property P
+// (C08 borrows admit+swap: its guard rule assumes the policy cannot change
+// while a request runs).
+func runC16As(c *Ctx, P string) {
 	p := c.P
-	const P = "C16"
 	c.rule(P, "admit", "T-PAIR: from TryRLock success, exactly one release per path (RUnlock before return, or hand-off to the goroutine whose first defer is RUnlock); no release in HandleCall after the hand-off; failing edge does not read policy", 5)
 	c.rule(P, "swap", "policy.Store / rateLimiter stores only in UpdatePolicyOptions under policyMu + policyRWMu.Lock, no return while the write lock is held", 4)
 	c.rule(P, "snapshot", "stored policy owns fresh copies of AllowedIPs, RateLimitConfig, TLS", 3)
@@ -187,6 +191,10 @@ func runC16(c *Ctx) {
 				seen[b] = true
 				for _, in := range b.Instrs {
 					if ci, ok := in.(ssa.CallInstruction); ok {
+						// a blocking RLock of the policy lock admits the request after the drain: from here on it is an admitted path
+						if f := staticCallee(ci); f != nil && qualFn(f) == "(*sync.RWMutex).RLock" && len(ci.Common().Args) > 0 && isMutexField(ci.Common().Args[0], "policyRWMu") {
+							return
+						}
 						if f := staticCallee(ci); f != nil && (f.Name() == "snapshotOptions" || atomicPtrOp(ci, "Load")) {
 							badFail = p.instrPos(in)
 						}
@@ -224,6 +232,11 @@ func runC16(c *Ctx) {
 				isRLStore := false
 				if st, ok := in.(*ssa.Store); ok {
 					if base, f, ok := fieldAddrOf(st.Addr); ok && f == rlFld && !isFresh(base) {
+						isRLStore = true
+					}
+				}
+				if ci, ok := in.(ssa.CallInstruction); ok && atomicPtrOp(ci, "Store") && len(ci.Common().Args) > 0 && isMutexField(ci.Common().Args[0], "rateLimiter") {
+					if fa, ok := ci.Common().Args[0].(*ssa.FieldAddr); ok && !isFresh(fa.X) {
 						isRLStore = true
 					}
 				}
@@ -281,7 +294,7 @@ func runC16(c *Ctx) {
 				if !ok {
 					continue
 				}
-				if !atomicPtrOp(ci, "Store") {
+				if !atomicPtrOp(ci, "Store") || !isMutexField(ci.Common().Args[0], "policy") {
 					continue
 				}
 				snap, ok := ci.Common().Args[1].(*ssa.Alloc)
@@ -324,18 +337,32 @@ func runC16(c *Ctx) {
 	for _, fn := range p.SrcFuncs {
 		for _, b := range fn.Blocks {
 			for _, in := range b.Instrs {
-				u, ok := in.(*ssa.UnOp)
-				if !ok {
-					continue
+				atomicRead := false
+				if ci, ok := in.(ssa.CallInstruction); ok && atomicPtrOp(ci, "Load") && len(ci.Common().Args) > 0 && isMutexField(ci.Common().Args[0], "rateLimiter") {
+					atomicRead = true
 				}
-				base, f, isLoad := fieldLoad(u)
-				if !isLoad || f != rlFld || isFresh(base) {
-					continue
+				if !atomicRead {
+					u, ok := in.(*ssa.UnOp)
+					if !ok {
+						continue
+					}
+					base, f, isLoad := fieldLoad(u)
+					if !isLoad || f != rlFld || isFresh(base) || strings.Contains(f.Type().String(), "atomic.Pointer") {
+						continue
+					}
 				}
 				nRead[fnKey(fn)]++
 				key := fmt.Sprintf("read=%s:rateLimiter#%d", fnKey(fn), nRead[fnKey(fn)])
 				if fn == upd {
 					c.ok(P, "limiter-read", key, p.instrPos(in), "inside the update itself")
+					continue
+				}
+				if atomicRead && !inExtent[fn] {
+					// an atomic read outside a request is race-free; it must then be taken per request
+					// (inside the connection loop), not once per connection, or only be used for cleanup
+					perRequest := rootFn(fn) == ent.ConnLoop && (inCycle(b) || fn.Parent() != nil)
+					c.verdictIf(perRequest, P, "limiter-read", key, p.instrPos(in), "atomic load taken per request / for cleanup at connection end",
+						"the rate limiter is loaded once and then used for the life of the connection: a connection opened before a policy update keeps the old limiter (or none)")
 					continue
 				}
 				c.verdictIf(inExtent[fn], P, "limiter-read", key, p.instrPos(in), "inside the admitted extent of a request (policy read lock held)",
